@@ -71,6 +71,7 @@ def run_case(data):
         return r
     c = ep.c
     got_stream_event = False
+    ack_data = ch.bool()
     err = None
     chunks = bytesgen.split(stream, cuts)
     if ch.bool():
@@ -78,14 +79,24 @@ def run_case(data):
         from hpack import Encoder
         blk = Encoder().encode(bytesgen.REQ if not sc.client else [(b':status', b'200')])
         for _ in range(ch.int(1, 3)):
-            k = ch.pick(['open', 'open', 'push', 'data', 'settings', 'ping', 'wu', 'rst'])
+            k = ch.pick(['open', 'open', 'push', 'data', 'settings', 'ping', 'wu', 'rst', 'settings-ack', 'settings-ack'])
             sid = ch.pick([1, 3, 5, 7, 9, 11, 101, 2, 4])
             chunks.append({'open': wire.headers(sid, blk, end_stream=ch.bool()),
                            'push': wire.push_promise(ch.pick([1, 3, 5]), ch.pick([2, 4, 6, 100]), blk),
                            'data': wire.data(sid, b'x' * ch.int(0, 9)), 'settings': wire.settings([(3, 1)]),
                            'ping': wire.ping(b'12345678'), 'wu': wire.window_update(ch.pick([0, sid]), 5),
+                           'settings-ack': wire.settings(ack=True),
                            'rst': wire.rst_stream(sid, 8)}[k])
-    for chunk in chunks:
+    local_at = ch.int(0, len(chunks)) if ack_data else -1
+    for ci, chunk in enumerate(chunks):
+        if ci == local_at:
+            # in the middle of it all the application changes its INITIAL_WINDOW_SIZE (the peer's ACK, if it
+            # comes, is one of the later frames)
+            try:
+                c.update_settings({wire.S_INITIAL_WINDOW_SIZE: ch.pick([100, 40, 1000, 30000])})
+                c.data_to_send()
+            except h2.exceptions.H2Error:
+                pass
         try:
             evs = c.receive_data(chunk)
         except h2.exceptions.ProtocolError as e:
@@ -101,6 +112,13 @@ def run_case(data):
         for e in evs:
             if getattr(e, 'stream_id', None) or getattr(e, 'pushed_stream_id', None):
                 got_stream_event = True
+            if ack_data and isinstance(e, h2.events.DataReceived) and e.flow_controlled_length:
+                # the application behaves: it acknowledges what it was given (what a later frame then triggers -
+                # a WINDOW_UPDATE when a settings change is acknowledged, say - belongs to receive_data again)
+                try:
+                    c.acknowledge_received_data(e.flow_controlled_length, e.stream_id)
+                except h2.exceptions.H2Error:
+                    pass
     nfr = len(wire.frame_boundaries(stream[(0 if sc.client else 24):])) - 1
     r.step('role', 'client' if sc.client else 'server', sc.cfg, 'mode', mode, 'frames', nfr, 'cuts', cuts, 'result',
            err or 'ok', stream)
